@@ -656,6 +656,7 @@ func fsFacts(b *strings.Builder, repo string) {
 			sk[n] = x.skeleton(fns[n])
 		}
 	}
+	readFileContentFacts(b, fns["VFS.ReadFileContent"])
 	// (a) preludes
 	fmt.Fprintf(b, "(* filesystem/files.go, zip.go: per context-accepting function, the backend helpers reached before the first context test *)\n")
 	fmt.Fprintf(b, "Definition gen_preludes : list prelude := [\n")
@@ -705,7 +706,8 @@ func fsFacts(b *strings.Builder, repo string) {
 	// (d) skeletons of the copy and move functions
 	fmt.Fprintf(b, "(* skeletons (main path, source order) of the copy and move functions *)\n")
 	for _, n := range []string{"CopyBetweenFSWithExclusionPatterns", "CopyBetweenFSWithExclusionRegexes", "copyFolderBetweenFSWithExclusionRegexes",
-		"copyFileBetweenFSWithExclusionPatternsWithExclusionRegexes", "VFS.MoveWithContext", "VFS.move", "VFS.moveFolder", "VFS.moveFile", "VFS.CopyToDirectoryWithContext"} {
+		"copyFileBetweenFSWithExclusionPatternsWithExclusionRegexes", "VFS.MoveWithContext", "VFS.move", "VFS.moveFolder", "VFS.moveFile", "VFS.CopyToDirectoryWithContext",
+		"VFS.RemoveWithPrivileges", "VFS.ReadFileContent"} {
 		if _, ok := sk[n]; !ok {
 			die(token.NoPos, "function %s not found", n)
 		}
@@ -713,4 +715,112 @@ func fsFacts(b *strings.Builder, repo string) {
 		flat(sk[n], &l)
 		fmt.Fprintf(b, "Definition gen_sk_%s : list sk := [\n  %s\n].\n", strings.ReplaceAll(n, ".", "_"), strings.Join(l, ";\n  "))
 	}
+}
+
+// ReadFileContent: where and how files larger than the limit are refused
+func readFileContentFacts(b *strings.Builder, fi *fnInfo) {
+	if fi == nil {
+		die(token.NoPos, "VFS.ReadFileContent not found")
+	}
+	ctxBeforeStat, sawTest := false, false
+	guard, needsApply, nesting, tooLarge := "", false, "None", false
+	maxDefault, fromLimits, readsMax := "", false, false
+	var statBlock *ast.IfStmt
+	st := fi.decl.Body.List
+	for i, s := range st {
+		switch x := s.(type) {
+		case *ast.AssignStmt:
+			r := src(x.Rhs[0])
+			switch {
+			case r == "parallelisation.DetermineContextError(ctx)":
+				sawTest = i+1 < len(st) && isErrReturn(st[i+1], src(x.Lhs[0]))
+			case r == "file.Stat()":
+				ctxBeforeStat = sawTest
+				if i+1 < len(st) {
+					if is, ok := st[i+1].(*ast.IfStmt); ok && src(is.Cond) == "err == nil" {
+						statBlock = is
+					}
+				}
+			case strings.HasPrefix(r, "safeio.ReadAtMost("):
+				readsMax = r == "safeio.ReadAtMost(ctx,file,max,bufferCapacity)"
+			}
+		case *ast.DeclStmt:
+			t := stmtDeclText(x)
+			if strings.HasPrefix(t, "max int64 = ") {
+				maxDefault = strings.TrimPrefix(t, "max int64 = ")
+			}
+		case *ast.IfStmt:
+			if src(x.Cond) == "limits.Apply()" && stmtText(x.Body.List) == "max = limits.GetMaxFileSize()" {
+				fromLimits = true
+			}
+		}
+	}
+	if statBlock == nil {
+		die(fi.decl.Pos(), "ReadFileContent: `fi, err := file.Stat(); if err == nil {` not found")
+	}
+	var find func(l []ast.Stmt, nest string, depth int)
+	find = func(l []ast.Stmt, nest string, depth int) {
+		for _, s := range l {
+			is, ok := s.(*ast.IfStmt)
+			if !ok {
+				continue
+			}
+			c := src(is.Cond)
+			cond := is.Cond
+			apply := false
+			if be, ok := cond.(*ast.BinaryExpr); ok && be.Op == token.LAND && src(be.X) == "limits.Apply()" {
+				apply = true
+				cond = be.Y
+			}
+			if be, ok := cond.(*ast.BinaryExpr); ok && src(be.X) == "fileSize" && src(be.Y) == "max" {
+				op, ok := cmpNames[be.Op]
+				if !ok {
+					die(is.Pos(), "ReadFileContent: size guard %s", c)
+				}
+				if guard != "" {
+					die(is.Pos(), "ReadFileContent: two size guards")
+				}
+				guard, needsApply, nesting = op, apply, nest
+				body := stmtText(is.Body.List)
+				tooLarge = strings.Contains(body, "commonerrors.ErrTooLarge") && strings.HasSuffix(body, "return")
+				continue
+			}
+			if be, ok := is.Cond.(*ast.BinaryExpr); ok && src(be.X) == "fileSize" {
+				op, ok := cmpNames[be.Op]
+				k := src(be.Y)
+				if k == "1e9" {
+					k = "1000000000"
+				}
+				if !ok || depth > 0 {
+					die(is.Pos(), "ReadFileContent: condition %s", c)
+				}
+				for _, ch := range k {
+					if ch < '0' || ch > '9' {
+						die(is.Pos(), "ReadFileContent: threshold %s", k)
+					}
+				}
+				find(is.Body.List, "(Some ("+op+", "+k+"))", depth+1)
+				continue
+			}
+			die(is.Pos(), "ReadFileContent: condition %s in the Stat block", c)
+		}
+	}
+	find(statBlock.Body.List, "None", 0)
+	if guard == "" {
+		die(statBlock.Pos(), "ReadFileContent: no `fileSize OP max` refusal")
+	}
+	fmt.Fprintf(b, "(* filesystem/files.go ReadFileContent *)\nDefinition gen_rfc : rfc_facts := {|\n  rfc_ctx_test_before_stat := %s;\n  rfc_guard := %s;\n  rfc_guard_needs_apply := %s;\n  rfc_guard_nesting := %s;\n  rfc_guard_returns_toolarge := %s;\n  rfc_max_default := %s;\n  rfc_max_from_limits_when_apply := %s;\n  rfc_reads_at_most_max := %s\n|}.\n\n",
+		coqBool(ctxBeforeStat), guard, coqBool(needsApply), nesting, coqBool(tooLarge), zlit(maxDefault), coqBool(fromLimits), coqBool(readsMax))
+}
+
+func stmtDeclText(d *ast.DeclStmt) string {
+	gd, ok := d.Decl.(*ast.GenDecl)
+	if !ok || len(gd.Specs) != 1 {
+		return ""
+	}
+	vs, ok := gd.Specs[0].(*ast.ValueSpec)
+	if !ok || len(vs.Names) != 1 || len(vs.Values) != 1 {
+		return ""
+	}
+	return vs.Names[0].Name + " " + src(vs.Type) + " = " + src(vs.Values[0])
 }
